@@ -18,6 +18,8 @@ evaluation F(z) by bracket search, own inversion that knows plateaus.
 import contextlib
 import io
 
+import math
+
 import numpy as np
 
 from .. import rngctl
@@ -313,7 +315,7 @@ def run(ctx):
 
         # ---------- rejection ----------------------------------------------------------------------
         for badE in [6 - 1e-9, 12 + 1e-9, 5.0, 13.0, float("nan"), float(np.nextafter(6.0, 0)), float(np.nextafter(12.0, 13))]:
-            for bb in [bmin, 0.5 * (bmin + bmax), bmax, 0.0]:
+            for bb in [bmin, 0.5 * (bmin + bmax), bmax, 0.0, float(np.nextafter(bmax, 4)), math.radians(60.0), math.pi / 2]:  # above the maximum as well: rejection must not depend on the angle
                 for withu in (True, False):
                     b = rng.uniform(bmin, bmax, 6)
                     le_ = rng.uniform(6, 12, 6)
@@ -325,7 +327,29 @@ def run(ctx):
                         ctx.violation("reject", f"table v{version}: energy logE={badE!r} outside the table accepted (beta={bb!r}), E_tau={np.asarray(r)[2]!r}", {"version": version, "loge": repr(badE), "beta": float(bb)})
                     except Exception:
                         pass
-    for m in ("pipeline", "plots", "call", "forward", "inverse", "range", "monotone", "low", "high", "reject", "explicit", "explicit-spy", "sampler-direct"):
+                ctx.count("reject")
+                try:
+                    r = tau.tau_energy(np.array([bb]), np.array([badE]), np.array([0.5]))
+                    ctx.violation("reject", f"table v{version}: single event with energy logE={badE!r} outside the table accepted (beta={bb!r}), E_tau={np.asarray(r)[0]!r}", {"version": version, "loge": repr(badE), "beta": float(bb), "single": True})
+                except Exception:
+                    pass
+        # ---------- input dtypes: whole-number angles (0) and energies, single / half precision ---------
+        cases_dt = [
+            ("integer beta = 0", np.array([0, 0, 0]), np.array([7.0, 8.0, 10.5]), np.array([0.2, 0.5, 0.9])),
+            ("int32 log_e_nu", np.radians(np.full(4, 5.0)), np.array([9, 10, 11, 12], dtype=np.int32), np.full(4, 0.5)),
+            ("float32 beta and energy", np.radians(np.array([2.0, 11.0, 33.0])).astype(np.float32), np.array([6.5, 9.25, 11.75], dtype=np.float32), np.array([0.3, 0.6, 0.05])),
+            ("Python lists", [0.05, 0.3], [7.5, 10.0], [0.25, 0.75]),
+        ]
+        for nm, b_, e_, u_ in cases_dt:
+            ctx.count("dtype")
+            try:
+                got_ = np.asarray(tau.tau_energy(np.asarray(b_), np.asarray(e_), np.asarray(u_)), dtype=np.float64)
+                want_ = np.asarray(tau.tau_energy(np.asarray(b_, dtype=np.float64), np.asarray(e_, dtype=np.float64), np.asarray(u_, dtype=np.float64)))
+                if not (got_.shape == want_.shape and np.all(np.abs(got_ - want_) <= 1e-6 * np.abs(want_))):
+                    ctx.violation("dtype", f"table v{version}: tau_energy with {nm} gives {got_.tolist()}; the same numbers as float64 give {want_.tolist()}", {"version": version, "case": nm})
+            except Exception as e:
+                ctx.exception("dtype", f"table v{version}: tau_energy with {nm} raised", e, {"version": version, "case": nm})
+    for m in ("dtype", "pipeline", "plots", "call", "forward", "inverse", "range", "monotone", "low", "high", "reject", "explicit", "explicit-spy", "sampler-direct"):
         ctx.require(m)
     return ctx.finish(
         rule="per table version: batches of size {1,2,8191,8192,8193,20000} with energies scattered / one tabulated value / blocks of constant tabulated values (8192-aligned and not) / sorted, in compositions {all in-table, all below-min, all above-max, mixed 25 % / 80 % / 0.2 % above-max}; (logE, beta) from nodes, cell centres, cell edges and interior; u uniform on [0, 1) plus hostile values (0, denormal .. 1-2^-53) and exact node CDF values incl. the first and last of each row; a case is a distinct (version, logE, beta, u)",
